@@ -22,8 +22,9 @@ import c08_validate as val
 THEOREMS = ['C08_volume_str_counts', 'C08_write_wf', 'C08_prune_preserves_wf',
             'C08_prune_total', 'C08_convert_tail_wf',
             'C08_remove_empty_volumes_ok', 'C08_geomcomp_partition',
-            'C08_bc_defined', 'C08_wf_fileb_ok', 'C08_wf_stateb_sound',
-            'C08_stage0_okb_sound']
+            'C08_bc_defined', 'C08_print_parse_roundtrip_partial',
+            'C08_composition_missing_refuted', 'C08_wf_fileb_ok',
+            'C08_wf_stateb_sound', 'C08_stage0_okb_sound']
 TRUSTED = [
     'hand-written model coq/C08/Model.v (modelled, tied by execution only)',
     'numeric fields: str(float) / numpy rendering of surface parameters and '
@@ -144,6 +145,30 @@ m1 1001 1.0
 
 m1 1001 1.0
 ''', []),
+    'material_without_card': ('''cell material without M card (open)
+1 7 -1.0 -1 imp:n=1
+2 0 1 imp:n=0
+
+1 so 2
+
+m1 1001 1.0
+''', []),
+    'negative_importance_no_composition': ('''negative importance (open)
+1 1 -1.0 -1 imp:n=-1
+2 0 1 imp:n=0
+
+1 so 2
+
+m1 1001 1.0
+''', []),
+    'nonfinite_surface_parameter': ('''overflowing number (open)
+1 1 -1.0 -1 imp:n=1
+2 0 1 imp:n=0
+
+1 so 1e999
+
+m1 1001 1.0
+''', []),
     'bc_on_merged_duplicate': ('''flag carried by a surface merged into its duplicate
 1 1 -1.0 -1 2 imp:n=1
 2 0 1 : -3 imp:n=0
@@ -160,8 +185,31 @@ m1 1001 1.0
 # ---- classification of validator problems ------------------------------------
 
 def classify(problem, conv, cap, rd, args):
-    '''Narrow known-finding class of one validator problem, or None.  No open
-    class is left for C08: every problem is a plain VIOLATION.'''
+    '''Narrow known-finding class of one validator problem, or None.'''
+    clause, msg = problem
+    if cap is None or cap.mats is None:
+        return None
+    if clause == 'geomcomp-name':
+        m = re.search(r'composition m(\d+)_(\S+) which', msg)
+        if not m:
+            return None
+        key, dens = int(m.group(1)), m.group(2)
+        same = [c for c in cap.cells if c[2] == key and c[3] == dens]
+        if key not in [k for k, _, _ in cap.mats]:
+            return 'material_without_card' if same else None
+        if same and not any(c[6] for c in same) \
+                and any(c[7] < 0 for c in same):
+            return 'negative_importance_no_composition'
+        return None
+    if clause == 'number':
+        m = re.match(r"SURF (\d+): '(inf|-inf|nan)'", msg)
+        if m:
+            for surf in cap.surfs:
+                if surf[0] == int(m.group(1)) and any(
+                        v != v or v in (float('inf'), float('-inf'))
+                        for v in surf[2]):
+                    return 'nonfinite_surface_parameter'
+        return None
     return None
 
 
@@ -220,7 +268,7 @@ def run(res, tier, seed, proofs_ok):
                 '--max-inline-score 0/100, a mixed set); non-trivial = a '
                 'file was written; distinct by (deck text, options)')
 
-    # ---- 1. corpus of former witnesses ----
+    # ---- 1. witnesses of the open findings and corpus of the repaired ones ----
     for cls, (deck_text, args) in WITNESSES.items():
         conv, cap = cap_mod.convert(deck_text, args)
         verdict = sweep_one(res, deck_text, args, conv, cap,
@@ -264,7 +312,10 @@ def run(res, tier, seed, proofs_ok):
                 continue
             valid = cap_mod.cbool(verdict is True or conv.text is None)
             cases.append(f'({term},\n {obs}, {valid})')
-            meta.append((deck_text, args, conv.exc, verdict))
+            card_keys = {k for k, _, _ in cap.mats}
+            open_cells = any((c[2] not in card_keys and c[2] != 0) or c[7] < 0
+                             for c in cap.cells)
+            meta.append((deck_text, args, conv.exc, verdict, open_cells))
             if len(res.samples) < 3 and conv.text is not None and i % 7 == 0:
                 res.sample({'deck': deck_text, 'args': args,
                             'file_bytes': len(conv.text)})
@@ -283,13 +334,20 @@ def run(res, tier, seed, proofs_ok):
                    f'written bytes; {n_in} runs inside wf_state)',
                    not bad['check_verdict'] and not errs,
                    f'{len(bad["check_verdict"])} disagreements')
+    # snapshots outside stage0_ok are expected only for the open findings
+    # (a cell whose material has no card, a cell of negative importance)
+    unexplained = [i for i in bad['stage0_ok'] if not meta[i][4]]
+    res.count('stage0:outside-because-of-open-finding',
+              len(bad['stage0_ok']) - len(unexplained))
     res.obligation(f'tie:stage0 ({len(cases)} snapshots: stage0_ok - the '
                    'hypotheses of C08_convert_tail_wf - holds on the tables '
-                   'construct_volume_t4 returned)',
-                   not bad['stage0_ok'] and not errs,
-                   f'{len(bad["stage0_ok"])} snapshots outside')
-    for idx in bad['stage0_ok'][:10]:
-        deck_text, args, exc, _verdict = meta[idx]
+                   'construct_volume_t4 returned, except decks with a cell of '
+                   'negative importance or without M card)',
+                   not unexplained and not errs,
+                   f'{len(unexplained)} snapshots outside, '
+                   f'{len(bad["stage0_ok"]) - len(unexplained)} explained')
+    for idx in unexplained[:10]:
+        deck_text, args, exc, _verdict, _open = meta[idx]
         res.violation('correspondence',
                       'the tables construct_volume_t4 returned do not satisfy '
                       'stage0_ok (hypotheses of C08_convert_tail_wf) [options '
@@ -304,7 +362,7 @@ def run(res, tier, seed, proofs_ok):
                       {'theorem_or_correspondence': 'tie:file',
                        'errors': errs[:3]}, found_input=False)
     for idx in bad['check_file'][:10]:
-        deck_text, args, exc, _verdict = meta[idx]
+        deck_text, args, exc, _verdict, _open = meta[idx]
         res.violation('correspondence',
                       'model and implementation disagree on the written file '
                       f'[options {" ".join(args) or "default"}, run raised '
@@ -314,7 +372,7 @@ def run(res, tier, seed, proofs_ok):
                       found_input=False)
     for idx in [i for i in bad['check_verdict']
                 if i not in bad['check_file']][:10]:
-        deck_text, args, exc, verdict = meta[idx]
+        deck_text, args, exc, verdict, _open = meta[idx]
         res.violation('correspondence',
                       'wf_file of the model\'s file and the validator '
                       f'disagree (validator says valid={verdict}) [options '
